@@ -186,5 +186,236 @@ func sizePhases(p *seqProp, tier string, widthDepth int, allOpts bool) []*seqPro
 	if tier == "thorough" {
 		sizes = sweepSizes(70, 128, 256, 512, 1024)
 	}
-	return []*seqProp{stringSizePhase(p, tier), widthSizePhase(p, sizes, widthDepth, allOpts)}
+	return []*seqProp{stringSizePhase(p, tier), widthSizePhase(p, sizes, widthDepth, allOpts), productPhase(p, tier), scriptPhase(p, tier)}
+}
+
+// under runs a size alphabet on a sized document that sits at pointer prefix inside a larger one: every
+// path of the inner alphabet is prefixed; if the inner document is gone, two operations on the wrapper remain.
+func under(prefix string, f func(d *rj.Value) []r69.Op) func(d *rj.Value) []r69.Op {
+	toks := strings.Split(strings.TrimPrefix(prefix, "/"), "/")
+	return func(d *rj.Value) []r69.Op {
+		cur := d
+		for _, t := range toks {
+			switch cur.K {
+			case rj.Obj:
+				v, ok := cur.Get(t)
+				if !ok {
+					cur = nil
+				} else {
+					cur = v
+				}
+			case rj.Arr:
+				i, err := strconv.Atoi(t)
+				if err != nil || i < 0 || i >= len(cur.A) {
+					cur = nil
+				} else {
+					cur = cur.A[i]
+				}
+			default:
+				cur = nil
+			}
+			if cur == nil {
+				one := rj.MustParse(`1`)
+				return []r69.Op{{Kind: "test", Path: "/k", Value: one, HasValue: true}, {Kind: "remove", Path: prefix}}
+			}
+		}
+		var out []r69.Op
+		for _, o := range f(cur) {
+			o.Path = prefix + o.Path
+			if o.Kind == "move" || o.Kind == "copy" {
+				o.From = prefix + o.From
+			}
+			out = append(out, o)
+		}
+		// and the sized document as a whole
+		out = append(out, r69.Op{Kind: "copy", From: prefix, Path: "/cp"}, r69.Op{Kind: "move", From: prefix, Path: "/mv"}, r69.Op{Kind: "test", Path: prefix, Value: cur, HasValue: true})
+		return out
+	}
+}
+
+// productPhase: the string / width / length documents next to 64 and 256 (thorough: 16 .. 4096) once more as
+// element 17 of an array member and nine levels down, depth 2.
+func productPhase(p *seqProp, tier string) *seqProp {
+	d := *p
+	pows := []int{64, 256}
+	if tier == "thorough" {
+		pows = []int{16, 32, 64, 128, 256, 1024, 4096}
+	}
+	d.Docs = nil
+	d.Depth = 2
+	d.Opts = p.Opts[:1]
+	inArr := func(doc string) string {
+		return `{"w":` + strings.TrimSuffix(txt(intArray(17)), "]") + "," + doc + `],"k":1}`
+	}
+	deep := func(doc string) string {
+		for i := 0; i < 9; i++ {
+			doc = `{"d":` + doc + `,"s":` + strconv.Itoa(i) + `}`
+		}
+		return doc
+	}
+	deepPrefix := strings.Repeat("/d", 9)
+	type variant struct {
+		doc string
+		ops func(d *rj.Value) []r69.Op
+	}
+	var vs []variant
+	for _, pw := range pows {
+		for _, n := range []int{pw - 1, pw, pw + 1} {
+			for _, inner := range []struct {
+				doc string
+				ops func(d *rj.Value) []r69.Op
+			}{{stringDoc(n), stringOps}, {widthDoc(n), thresholdOps}, {arrayDoc(n), thresholdOps}} {
+				vs = append(vs, variant{inArr(inner.doc), under("/w/17", inner.ops)}, variant{deep(inner.doc), under(deepPrefix, inner.ops)})
+			}
+		}
+	}
+	for _, v := range vs {
+		d.Docs = append(d.Docs, v.doc)
+	}
+	// the alphabet is chosen by where the sized document sits in the CURRENT document
+	d.Alpha = []*AlphaCfg{{Custom: func(cur *rj.Value) []r69.Op {
+		if cur.K == rj.Obj {
+			if _, ok := cur.Get("w"); ok {
+				if in := resolve(cur, "/w/17"); in != nil {
+					return under("/w/17", pickOps(in))(cur)
+				}
+			}
+			if in := resolve(cur, deepPrefix); in != nil {
+				return under(deepPrefix, pickOps(in))(cur)
+			}
+		}
+		return []r69.Op{{Kind: "test", Path: "", Value: cur, HasValue: true}}
+	}}}
+	d.Rule = fmt.Sprintf("PRODUCTS of a size and a position: the string / width / length documents of sizes p-1, p, p+1 for p in %v placed as element 17 of an array member and nine levels down; all sequences <= 2 over the size alphabets re-based on that position (+ copy / move / test of the whole sized document); same oracle", pows)
+	return &d
+}
+
+func pickOps(inner *rj.Value) func(d *rj.Value) []r69.Op {
+	if inner.K == rj.Obj {
+		if _, ok := inner.Get("s"); ok {
+			return stringOps
+		}
+		if _, ok := inner.Get("num"); ok {
+			return stringOps
+		}
+	}
+	return thresholdOps
+}
+
+func resolve(d *rj.Value, ptr string) *rj.Value {
+	cur := d
+	for _, t := range strings.Split(strings.TrimPrefix(ptr, "/"), "/") {
+		switch cur.K {
+		case rj.Obj:
+			v, ok := cur.Get(t)
+			if !ok {
+				return nil
+			}
+			cur = v
+		case rj.Arr:
+			i, err := strconv.Atoi(t)
+			if err != nil || i < 0 || i >= len(cur.A) {
+				return nil
+			}
+			cur = cur.A[i]
+		default:
+			return nil
+		}
+	}
+	return cur
+}
+
+// scriptPhase: the PATCH-LENGTH dimension. A patch is a step repeated N times (N = 0 .. 70 and around 128,
+// 256) followed by ONE probe from a small alphabet aimed at what the steps touched: N removes from a wide
+// object, N adds to an object / appends to an array / inserts at the front, N add-remove alternations on
+// one name, N copies, N moves along a chain, N replaces - then replace / copy / move / remove / test / add on
+// the member touched last, touched first, and on an untouched one.
+func scriptPhase(p *seqProp, tier string) *seqProp {
+	d := *p
+	counts := sweepSizes(70, 128, 256)
+	if tier == "thorough" {
+		counts = sweepSizes(140, 256, 512, 1024)
+	}
+	d.Docs, d.Alpha, d.Depth = nil, nil, 0
+	d.Opts = p.Opts[:1]
+	d.Scripts = func() []seqScript { return lengthScripts(counts) }
+	d.Rule = fmt.Sprintf("PATCH LENGTH: one step repeated N times (N = 0..%d and around the powers of two up to %d: removes from / adds to a wide object, appends and front inserts on an array, add-remove alternations on one name, copies, chained moves, replaces) followed by each of ~14 probe operations on the member touched last, touched first and on an untouched one; same oracle", 70, counts[len(counts)-1])
+	return &d
+}
+
+func lengthScripts(counts []int) []seqScript {
+	one, null := rj.MustParse(`1`), rj.NewNull()
+	maxN := counts[len(counts)-1]
+	wide := widthDoc(maxN + 8)
+	small := `{"o":{"x":1},"a":[0],"src":{"v":[1,2]},"k":1}`
+	name := func(i int) string { return fmt.Sprintf("/m%04d", i) }
+	probes := func(last, first, other string) []r69.Op {
+		var ps []r69.Op
+		for _, t := range []string{last, first, other} {
+			ps = append(ps,
+				r69.Op{Kind: "replace", Path: t, Value: rj.MustParse(`"back"`), HasValue: true},
+				r69.Op{Kind: "copy", From: t, Path: "/probe"},
+				r69.Op{Kind: "move", From: t, Path: "/probe"},
+				r69.Op{Kind: "remove", Path: t},
+				r69.Op{Kind: "test", Path: t, Value: null, HasValue: true},
+				r69.Op{Kind: "add", Path: t, Value: one, HasValue: true})
+		}
+		return ps
+	}
+	var out []seqScript
+	emit := func(doc string, steps []r69.Op, ps []r69.Op) {
+		out = append(out, seqScript{doc, append([]r69.Op(nil), steps...)})
+		for _, pr := range ps {
+			out = append(out, seqScript{doc, append(append([]r69.Op(nil), steps...), pr)})
+		}
+	}
+	for _, n := range counts {
+		// N removes from the wide object, in order and from the end
+		var st, st2 []r69.Op
+		for i := 0; i < n; i++ {
+			st = append(st, r69.Op{Kind: "remove", Path: name(i)})
+			st2 = append(st2, r69.Op{Kind: "remove", Path: name(maxN + 7 - i)})
+		}
+		emit(wide, st, probes(name(imax(n-1, 0)), name(0), name(maxN+7)))
+		emit(wide, st2, probes(name(maxN+7-imax(n-1, 0)), name(maxN+7), name(0)))
+		// N adds of new members to the small object's member o
+		st = nil
+		for i := 0; i < n; i++ {
+			st = append(st, r69.Op{Kind: "add", Path: fmt.Sprintf("/o/n%04d", i), Value: rj.NewNum(fmt.Sprint(i)), HasValue: true})
+		}
+		emit(small, st, probes(fmt.Sprintf("/o/n%04d", imax(n-1, 0)), "/o/n0000", "/o/x"))
+		// N appends / N front inserts on the array
+		st, st2 = nil, nil
+		for i := 0; i < n; i++ {
+			st = append(st, r69.Op{Kind: "add", Path: "/a/-", Value: rj.NewNum(fmt.Sprint(i + 1)), HasValue: true})
+			st2 = append(st2, r69.Op{Kind: "add", Path: "/a/0", Value: rj.NewNum(fmt.Sprint(-i - 1)), HasValue: true})
+		}
+		emit(small, st, probes(fmt.Sprintf("/a/%d", n), "/a/0", fmt.Sprintf("/a/%d", n+1)))
+		emit(small, st2, probes("/a/0", fmt.Sprintf("/a/%d", n), "/a/-1"))
+		// N add-remove alternations on one name (ends removed when N is even)
+		st = nil
+		for i := 0; i < n; i++ {
+			if i%2 == 0 {
+				st = append(st, r69.Op{Kind: "add", Path: "/o/t", Value: rj.NewNum(fmt.Sprint(i)), HasValue: true})
+			} else {
+				st = append(st, r69.Op{Kind: "remove", Path: "/o/t"})
+			}
+		}
+		emit(small, st, probes("/o/t", "/o/x", "/o/zz"))
+		// N copies of one source to new names; N moves along a chain; N replaces of one member
+		st, st2 = nil, nil
+		var st3 []r69.Op
+		prev := "/src"
+		for i := 0; i < n; i++ {
+			st = append(st, r69.Op{Kind: "copy", From: "/src", Path: fmt.Sprintf("/c%04d", i)})
+			nx := fmt.Sprintf("/h%04d", i)
+			st2 = append(st2, r69.Op{Kind: "move", From: prev, Path: nx})
+			prev = nx
+			st3 = append(st3, r69.Op{Kind: "replace", Path: "/k", Value: rj.NewNum(fmt.Sprint(i)), HasValue: true})
+		}
+		emit(small, st, probes(fmt.Sprintf("/c%04d/v/0", imax(n-1, 0)), "/c0000", "/src/v/1"))
+		emit(small, st2, probes(prev+"/v", "/src", "/h0000"))
+		emit(small, st3, probes("/k", "/o/x", "/zz"))
+	}
+	return out
 }
